@@ -465,6 +465,7 @@ fn run_shard(ctx: &ShardCtx, acc: &mut Acc) {
                     &CfOpts {
                         back_edges: false,
                         faults: true,
+                        trunc_tail: true,
                         max_blocks: 6,
                     },
                 )
